@@ -485,6 +485,9 @@ func (s *Server) handleSession(clientMAC net.HardwareAddr, data []byte) {
 	if err != nil {
 		return
 	}
+	if hdr.Length < 2 || 6+int(hdr.Length) > len(data) {
+		return
+	}
 
 	session := s.sessions.GetSession(hdr.SessionID)
 	if session == nil {
